@@ -263,9 +263,10 @@ func (e *kvElection) handleReconnect() {
 		e.logWithContext(e.ctx)...,
 	)
 
-	e.wg.Add(1)
+	wg := e.wg
+	wg.Add(1)
 	go func() {
-		defer e.wg.Done()
+		defer wg.Done()
 		e.verifyLeadershipAfterReconnect()
 	}()
 }
